@@ -13,7 +13,7 @@ REQUIRED_THEOREMS = ["PycModel.C05.regroup_no_labels", "PycModel.C05.regroupGo_p
                      "PycModel.C05.fixSwitchLoop_eq_regroup", "PycModel.C05.fixSwitchCases_eq_spec",
                      "PycModel.C05.fixSwitchCases_empty_block", "PycModel.C05.labeled_statement_shape",
                      "PycModel.SwitchRefine.peel_extract", "PycModel.SwitchRefine.loop_refines",
-                     "PycModel.C05.statements_nest_as_the_grammar_says", "PycModel.StmtSkel.parse_stmt", "PycModel.StmtSkel.all_s", "PycModel.StmtSkel.svals_shaped", "PycModel.StmtSkel.fixSwitch_sval", "PycModel.StmtSkel.sok_switch", "PycModel.StmtSkel.sok_case",
+                     "PycModel.C05.statements_nest_as_the_grammar_says", "PycModel.StmtSkel.parse_stmt", "PycModel.StmtSkel.all_s", "PycModel.StmtSkel.svals_shaped", "PycModel.StmtSkel.fixSwitch_sval", "PycModel.StmtSkel.sok_switch", "PycModel.StmtSkel.sok_case", "PycModel.StmtSkel.sok_for", "PycModel.StmtSkel.sok_goto", "PycModel.StmtSkel.sok_label",
                      "PycModel.Tables.model_starts_statement"]
 LEVEL = "proof"
 TRUSTED = ["Spec/Stmt.lean: our reading of C99 6.8 and of the documented AST; the `;` after a block-level _Static_assert is an EmptyStatement (pinned by the repository's own test_static_assert)"]
